@@ -175,6 +175,7 @@ type vXP struct {
 	consumers int
 	batch     *queuebatch.BatchConfig
 	legacy    bool // the batch settings come through the deprecated exporter batcher option (WithBatcher)
+	queueSize int64 // 0 = large; otherwise a small queue (requests sizer): some Sends are refused with "queue is full"
 	longDelay bool
 
 	mu        sync.Mutex
@@ -187,11 +188,13 @@ type vXP struct {
 	foreign   []uint64     // items of ANOTHER exporter handed to this export function
 	busyReqs  map[int]bool // requests that had a piece answered with a retryable error
 	calls     int
+	inflight  int
 	afterStop int
 	blocked   chan struct{}
 	release   chan struct{}
 	blockOnce sync.Once
 	accepted  map[uint64]bool // items of requests accepted by Send
+	refused   int
 	be        *BaseExporter
 }
 
@@ -206,6 +209,8 @@ func (p *vXP) export(_ context.Context, req request.Request) error {
 	}
 	p.mu.Lock()
 	p.calls++
+	p.inflight++
+	defer func() { p.mu.Lock(); p.inflight--; p.mu.Unlock() }()
 	if p.stopping {
 		p.afterStop++
 	}
@@ -265,6 +270,9 @@ func (p *vXP) build() error {
 	qCfg.StorageID = &storageID
 	qCfg.NumConsumers = p.consumers
 	qCfg.QueueSize = 100000
+	if p.queueSize > 0 {
+		qCfg.QueueSize = p.queueSize
+	}
 	var extra []Option
 	if p.batch != nil {
 		qCfg.Sizer = request.SizerTypeItems
@@ -366,11 +374,16 @@ func TestVerifC01Exporter(t *testing.T) {
 			if rng.Intn(2) == 0 {
 				p.batch = &queuebatch.BatchConfig{FlushTimeout: 5 * time.Millisecond, MinSize: int64(rng.Pick(3, 1) * 2), MaxSize: int64(2 + rng.Intn(3))}
 				p.legacy = rng.Intn(3) == 0
+			} else if rng.Intn(3) == 0 {
+				p.queueSize = int64(2 + rng.Intn(3)) // a queue that overflows: only what Send accepted (nil) counts
 			}
 			ps = append(ps, p)
 			term += fmt.Sprintf(" | exporter%d id=%s signal=%s consumers=%d long_backoff=%v", p.idx, p.id, p.signal, p.consumers, p.longDelay)
 			if p.batch != nil {
 				term += fmt.Sprintf(" batch(min=%d,max=%d,legacy_batcher_option=%v)", p.batch.MinSize, p.batch.MaxSize, p.legacy)
+			}
+			if p.queueSize > 0 {
+				term += fmt.Sprintf(" queue_size=%d", p.queueSize)
 			}
 		}
 		// requests and item kinds
@@ -492,6 +505,8 @@ func TestVerifC01Exporter(t *testing.T) {
 				for _, it := range s.r.items {
 					s.p.accepted[it] = true
 				}
+			} else {
+				s.p.refused++
 			}
 		}
 		// steady state: every worker that can be occupied by a retryable piece is occupied
@@ -606,46 +621,88 @@ func TestVerifC01Exporter(t *testing.T) {
 			if p.legacy {
 				out.Stat("exporter_with_legacy_batcher_option", 1)
 			}
-		}
-		// second incarnation, healthy destinations
-		for _, p := range ps {
-			if err := p.build(); err != nil {
-				t.Fatal(err)
-			}
-			if err := p.be.Start(context.Background(), host); err != nil {
-				t.Fatal(err)
+			if p.queueSize > 0 {
+				out.Stat("exporter_with_small_queue", 1)
+				out.Stat("exporter_sends_refused_queue_full", p.refused)
 			}
 		}
-		vCheckClients("second start")
-		deadline = time.Now().Add(60 * time.Second)
-		for {
-			missing := 0
-			for _, p := range ps {
-				p.mu.Lock()
-				for it := range p.accepted {
-					if !p.delivered[it] && !p.permanent[it] {
-						missing++
-					}
-				}
-				p.mu.Unlock()
-			}
-			storedLeft := 0
+		// healthy incarnations on the same storage until nothing is stored any more.  One is not always enough: a request
+		// that was in flight and does not fit back into a SMALL queue at start-up stays stored and listed and is moved
+		// back by the next start (by design); the number of rounds is bounded by the number of stored items.
+		storedItems := func() int {
+			n := 0
 			ext.mu.Lock()
 			for _, cl := range ext.clients {
-				storedLeft += len(cl.storedItems())
+				n += len(cl.storedItems())
 			}
 			ext.mu.Unlock()
-			if missing == 0 || storedLeft == 0 || time.Now().After(deadline) {
+			return n
+		}
+		queuesIdle := func() bool { // every queue has dispatched all it holds and no export call is in progress
+			ext.mu.Lock()
+			defer ext.mu.Unlock()
+			for _, cl := range ext.clients {
+				cl.mu.Lock()
+				r, w := cl.m["ri"], cl.m["wi"]
+				cl.mu.Unlock()
+				var ri, wi uint64
+				if len(w) >= 8 {
+					wi = binary.LittleEndian.Uint64(w)
+				}
+				if len(r) >= 8 {
+					ri = binary.LittleEndian.Uint64(r)
+				}
+				if ri != wi {
+					return false
+				}
+			}
+			for _, p := range ps {
+				p.mu.Lock()
+				busy := p.inflight
+				p.mu.Unlock()
+				if busy != 0 {
+					return false
+				}
+			}
+			return true
+		}
+		maxRounds := storedItems() + 3
+		rounds := 0
+		for ; rounds < maxRounds; rounds++ {
+			if rounds > 0 && storedItems() == 0 {
 				break
 			}
-			time.Sleep(200 * time.Microsecond)
-		}
-		for _, p := range ps {
-			if _, ok := vShutdownWithin(p.be, 30*time.Second); !ok {
-				out.Oracle("exporter-shutdown-does-not-return", term, "second incarnation")
-				return
+			for _, p := range ps {
+				if err := p.build(); err != nil {
+					t.Fatal(err)
+				}
+				if err := p.be.Start(context.Background(), host); err != nil {
+					t.Fatal(err)
+				}
+			}
+			vCheckClients(fmt.Sprintf("healthy start %d", rounds))
+			deadline = time.Now().Add(60 * time.Second)
+			for {
+				if storedItems() == 0 || time.Now().After(deadline) {
+					break
+				}
+				if queuesIdle() {
+					before := storedItems()
+					time.Sleep(10 * time.Millisecond)
+					if queuesIdle() && storedItems() == before {
+						break // what is left waits for the next start
+					}
+				}
+				time.Sleep(200 * time.Microsecond)
+			}
+			for _, p := range ps {
+				if _, ok := vShutdownWithin(p.be, 30*time.Second); !ok {
+					out.Oracle("exporter-shutdown-does-not-return", term, fmt.Sprintf("healthy incarnation %d", rounds))
+					return
+				}
 			}
 		}
+		out.Stat(fmt.Sprintf("exporter_healthy_incarnations_%d", rounds), 1)
 		redelivered := 0
 		for _, p := range ps {
 			p.mu.Lock()
